@@ -47,7 +47,8 @@ type D struct{ F map[string]int }
 
 // universe selects what the labels A, B, C, D stand for: 0 = four local structs; 1 = types that are spelled alike
 // (model.T, model.T, model.U, model.U) in two imported packages of the same name; 2 = local structs whose names
-// start with a multi-byte letter (minted names are cut out of the type's name).
+// start with a multi-byte letter (minted names are cut out of the type's name); 3 = arities of one type; 4 = instantiations
+// of generic types, by value.
 var universe = 0
 
 const typesSrcUnicode = "package p\n\ntype \u00c4 struct{ F int }\n\ntype \u00c4b struct{ F string }\n\ntype \u00d6 struct{ F []int }\n\ntype \u00d6b struct{ F map[string]int }\n"
@@ -58,6 +59,8 @@ func tn(label string) string {
 		return map[string]string{"A": "ma.T", "B": "mb.T", "C": "ma.U", "D": "mb.U"}[label]
 	case 2:
 		return map[string]string{"A": "\u00c4", "B": "\u00c4b", "C": "\u00d6", "D": "\u00d6b"}[label]
+	case 4:
+		return map[string]string{"A": "Box[int]", "B": "Box[string]", "C": "Pair[int, string]", "D": "Pair[string, int]"}[label]
 	}
 	return label
 }
@@ -71,6 +74,9 @@ func render(pl plug, calls []call, reserve bool) map[string]string {
 		files["b/model/m.go"] = "package model\n\ntype T struct{ F string }\n\ntype U struct{ F map[string]int }\n"
 	case 2:
 		files["p/types.go"] = typesSrcUnicode
+	case 4:
+		// instantiations of one generic type are different types that share their declaration
+		files["p/types.go"] = "package p\n\ntype Box[T any] struct{ F T }\n\ntype Pair[K comparable, V any] struct {\n\tK K\n\tV V\n}\n"
 	}
 	nf := 0
 	for _, c := range calls {
@@ -89,7 +95,7 @@ func render(pl plug, calls []call, reserve bool) map[string]string {
 			x = "deriveCloneOf" + c.typ + "(x)"
 		}
 		ptr := "*"
-		if universe == 2 {
+		if universe == 2 || universe == 4 {
 			ptr = "" // by value: minted names are taken from the name of a named first argument
 		}
 		if universe == 3 && pl.name == "equal" {
@@ -395,7 +401,7 @@ func TestProp(t *testing.T) {
 											continue
 										}
 										// each case runs in one of the three type universes, another one under another seed
-										universe = int((int64(idx/c.NShards) + c.Seed) % 4)
+										universe = int((int64(idx/c.NShards) + c.Seed) % 5)
 										if universe < 0 {
 											universe = 0
 										}
@@ -444,7 +450,7 @@ func TestProp(t *testing.T) {
 	// random larger packages with injected collisions
 	c.Check(t, func(rt *rapid.T) {
 		pl := plugs[rapid.IntRange(0, len(plugs)-1).Draw(rt, "plugin")]
-		universe = rapid.IntRange(0, 3).Draw(rt, "universe")
+		universe = rapid.IntRange(0, 4).Draw(rt, "universe")
 		k := rapid.IntRange(4, 9).Draw(rt, "k")
 		calls := make([]call, k)
 		names := []string{"", "A", "B", "Other", "Fifth", "X"}
